@@ -67,7 +67,7 @@ pub fn gen(tier: &str, seed: u64, emit: &mut dyn FnMut(String)) {
             let run = *rng.pick(&[2usize, 3, 8, 16, 21, 22, 33, 40, 70, 129, 255, 256, 257, 300]);
             for k in 0..run {
                 let mut bad = sect.clone();
-                bad[5] = (bad[5] & 0xc1) | ((((k as u8) * 3 + 7) & 31) << 1);
+                bad[5] = (bad[5] & 0xc1) | ((((k * 3 + 7) & 31) as u8) << 1);
                 let body_end = bad.len() - 4; let j = 8 + rng.below((body_end - 8) as u64) as usize; bad[j] ^= 1 << rng.below(8);
                 if crc32_mpeg(&bad) == 0 { bad[j] ^= 0xff; }
                 m.psi(pid, &bad, 0, 0, &mut rng);
